@@ -93,9 +93,10 @@ def gen_cases(out, explore):
         ntr = rnd.choice([2, 3, 5, 8, 12])
         base = [rand_tree(rnd, rnd.choice([1, 2, 3, 5, 8, 12]), rnd.choice([1, 2, 3])) for _ in range(max(1, ntr // 2))]
         traces = []
+        case_pair = rnd.random() < 0.3       # two workflow names that differ only in letter case, sharing shapes
         for j in range(ntr):
             t = shuffle_tree(rnd, rnd.choice(base)) if rnd.random() < 0.7 else rand_tree(rnd, rnd.choice([1, 3, 6]), 2)
-            traces.append((j + 1, 1 + rnd.randrange(rnd.choice([1, 2, 3])), t))
+            traces.append((j + 1, rnd.choice([1, 4]) if case_pair else 1 + rnd.randrange(rnd.choice([1, 2, 3])), t))   # 1/4 = Billing/billing
         case = dict(traces=traces, bs=rnd.choice([1, 2, 3, 1000]), order=rnd.choice(["seq", "interleave", "reverse"]),
                     buf=0, oseed=rnd.randrange(10**6))
         if rnd.random() < 0.5:       # traces that do not overlap in time, so that the order of ingestion is also an order in time
